@@ -27,6 +27,8 @@ claimed = {
              note="math/rand.Intn is a stub returning an arbitrary value in range (panics for n<=0); chooser()'s float division/comparison is abstracted to real arithmetic in the threshold clause; the statistical proportionality clause is not covered. Replays of rand-dependent counterexamples are statistical (up to 3000 native tries)."),
  "C18": dict(design="5/C18", text="Add: 128 symbolic 64-bit weights over full 64-codon tables, every weight is the sum and code/starts/stops are the first table's. Compromise: for enumerated small weights and a symbolic real cut-off in [-1,2] the solver decides error iff cut-off outside [0,1], symmetry, zero-or-mean-of-shares within the +/-1-per-rounding tolerance, zero below / mean above the cut-off, code kept.",
              note="Shares are computed with real float64 arithmetic on concrete weights; int(10000*cutOff) is abstracted to real arithmetic with truncation."),
+ "C17": dict(design="5/C17", text="De Bruijn sequence: orders 1..4 (quick) / 1..6 (thorough) executed by the engine and checked for length and every-word-exactly-once (closed computation). Barcodes: for symbolic banned sequences (length 2..3 over ATGC) and filters rejecting symbolic windows the solver decides on every path that each barcode is a substring of the requested length, barcodes share no n-word, no barcode contains a ban or the reverse complement of one, every filter accepts every barcode, and the call terminates within the step budget.",
+             note="Filters are restricted to 'reject an arbitrary set of at most 1 (quick) / 2 (thorough) windows' (fully uninterpreted predicates explode as 2^windows). Orders 7..11 are outside the claim."),
 }
 
 na_reason = {}
